@@ -71,6 +71,12 @@ fn base_tables() -> Vec<SafetyDesc> {
     ]
 }
 
+/// Rayon pools of 1, 2, 4, 8 and 16 threads, built once per process.
+pub fn pools_1_to_16() -> &'static Vec<(usize, rayon::ThreadPool)> {
+    static POOLS: std::sync::OnceLock<Vec<(usize, rayon::ThreadPool)>> = std::sync::OnceLock::new();
+    POOLS.get_or_init(|| [1usize, 2, 4, 8, 16].iter().map(|&n| (n, rayon::ThreadPoolBuilder::new().num_threads(n).build().unwrap())).collect())
+}
+
 fn set_of(v: &[(usize, usize)]) -> BTreeSet<(usize, usize)> {
     v.iter().map(|&(a, b)| (a.min(b), a.max(b))).collect()
 }
@@ -230,18 +236,24 @@ pub fn eval_prepared(cfg: &Config, prep: &mut Prepared, body_table: &SafetyDesc,
                 ));
             }
         }
-        if pools && mode == 0 {
-            // schedules: which hit first-collision mode returns may differ; each must be a hit, verdicts identical
-            for threads in [1usize, 2, 4, 8, 16] {
-                let pool = rayon::ThreadPoolBuilder::new().num_threads(threads).build().unwrap();
-                let (det, col) = pool.install(|| (robot.collision_details(&cfg.q), robot.collides(&cfg.q)));
-                for p in set_of(&det) {
-                    if !hit.contains(&p) && !boundary.contains(&p) {
-                        fails.push((format!("C10/pool{threads}/spurious-pair"), format!("pair {p:?} reported in a {threads}-thread pool")));
+        if pools && mode != 2 {
+            // schedules: in first-collision mode *which* hit is returned may differ (each must be a hit); the all-collisions
+            // list and the boolean verdict must be identical for every pool size and every repetition
+            for (threads, pool) in pools_1_to_16() {
+                let threads = *threads;
+                for _rep in 0..3 {
+                    let (det, col) = pool.install(|| (robot.collision_details(&cfg.q), robot.collides(&cfg.q)));
+                    for p in set_of(&det) {
+                        if !hit.contains(&p) && !boundary.contains(&p) {
+                            fails.push((format!("C10/pool{threads}/spurious-pair"), format!("pair {p:?} reported in a {threads}-thread pool")));
+                        }
                     }
-                }
-                if decided && (col != want || det.is_empty() == want) {
-                    fails.push((format!("C10/pool{threads}/verdict"), format!("verdict differs in a {threads}-thread pool: collides={col} details={det:?} oracle={hit:?}")));
+                    if mode == 1 && set_of(&det) != obs {
+                        fails.push((format!("C10/pool{threads}/report-differs"), format!("all-collisions report {det:?} in a {threads}-thread pool, {observed:?} in the default pool")));
+                    }
+                    if decided && (col != want || det.is_empty() == want) {
+                        fails.push((format!("C10/pool{threads}/verdict"), format!("verdict differs in a {threads}-thread pool: collides={col} details={det:?} oracle={hit:?}")));
+                    }
                 }
             }
         }
@@ -287,7 +299,10 @@ fn audit_sources(rep: &mut Report) {
         let code: String = src.lines().filter(|l| !l.trim_start().starts_with("//")).collect::<Vec<_>>().join("\n");
         for bad in ["static mut", "thread_local!", "unsafe ", "RefCell", "Mutex", "AtomicBool", "AtomicUsize", "Cell<"] {
             if code.contains(bad) {
-                rep.machinery_errors.push(format!("atomic-task assumption no longer established: collisions.rs mentions `{bad}`"));
+                // not a verdict and not a failure of the machinery: the schedule-independence clause then rests on the
+                // differential pool runs alone, and the evidence says so
+                rep.assumptions.push(format!("collisions.rs mentions `{bad}`: tasks may share state; schedule independence is covered only by the pool-size / repetition differential of this run"));
+                rep.set("atomic_task_assumption_textually_established", json!(false));
             }
         }
     }
@@ -446,7 +461,7 @@ pub fn run(ctx: &Ctx) -> Report {
                 }
                 let mut tt = t.clone();
                 tt.mode = mode;
-                let pools = mode == 0 && ti == 2 && ix[3] % 16 == 0;
+                let pools = (mode == 0 || mode == 1) && ti == 2 && ix[3] % 16 == 0;
                 let (f, s) = eval_prepared(&cfg, &mut prep, &tt, None, pools);
                 record(f, s, json!({"body_table": tt.json(), "near_table": null, "pools": pools}), r);
             }
@@ -499,7 +514,7 @@ pub fn run(ctx: &Ctx) -> Report {
                 pairs within 1 mm of their limit are not judged; first-collision mode re-run in rayon pools of 1,2,4,8,16 threads; plus the bundled RX160 STL meshes in the cell of the crate's example against parry's exact queries; \
                 signature = (entry, mode, number of oracle pairs)".into();
     rep.set("axes", json!({"presence_variants": presence.len(), "layouts": N_LAYOUTS, "subdiv_variants": 2, "postures": qs.len(), "tables": tables.len()}));
-    rep.assumptions.push("tasks evaluated by rayon are pure (textual audit of collisions.rs on every run); schedule only selects which hit first-collision mode reports".into());
+    rep.assumptions.push("tasks evaluated by rayon are expected to be pure (textual audit of collisions.rs, recorded in the evidence); reports are compared across pools of 1,2,4,8,16 threads and 3 repetitions".into());
     rep.assumptions.push("'intersects' is surface intersection of the triangle meshes, as in the implementation; no layout nests closed bodies surface-disjointly within a limit".into());
     rep
 }
